@@ -6,7 +6,7 @@ HOOK_COMMITS = ["afa3aa0"]
 # property -> (Lean module, [theorems that decide it]); audited with `#print axioms` on every run
 THEOREMS = {
     "C01": ("TrVerif.Props.C01", ["Tr.C01", "Tr.C01_with", "Tr.C01_modulo_cleanup", "Tr.cleanupPreserves", "Tr.revScanList_inv", "Tr.reconLoop_valid", "Tr.emit_valid"]),
-    "C02": ("TrVerif.Props.C02", ["Tr.C02_partial", "Tr.stepsOfLegs_transfer"]),
+    "C02": ("TrVerif.Props.C02", ["Tr.C02_partial", "Tr.C02_times", "Tr.stepsOfLegs_transfer"]),
     "C06": ("TrVerif.Props.C06", ["Tr.C06_totals", "Tr.C06_route"]),
     "C07": ("TrVerif.Props.C07", ["Tr.C07_route_strings", "Tr.C07_accessibility_strings", "Tr.C07_enum_order", "Tr.C07_access"]),
     "C10": ("TrVerif.Props.C10", ["Tr.C10_alternatives"]),
